@@ -120,6 +120,22 @@ func ObserveW(w *Worker, root string) Obs {
 
 // Observe runs the read commands through run (cwd = project root).
 func Observe(run func(Req) Res, root string) Obs {
+	o := observe(run, root)
+	// the project root only shows up in derived file:// URLs; make observations comparable across directories
+	o.RawAll = strings.ReplaceAll(o.RawAll, root, "<ROOT>")
+	for id, raw := range o.RawShow {
+		o.RawShow[id] = strings.ReplaceAll(raw, root, "<ROOT>")
+	}
+	for id, sh := range o.Shows {
+		for i := range sh.Results {
+			sh.Results[i].FileURL = strings.ReplaceAll(sh.Results[i].FileURL, root, "<ROOT>")
+		}
+		o.Shows[id] = sh
+	}
+	return o
+}
+
+func observe(run func(Req) Res, root string) Obs {
 	o := Obs{Shows: map[string]Show{}, RawShow: map[string]string{}}
 	get := func(dst *[]Item, raw *string, args ...string) bool {
 		res := run(R(root, args...))
